@@ -21,7 +21,7 @@
     serialised unit ([ser]): name maps cut to their 100 largest counts, time
     sum replaced by the whole-microsecond average times the count. *)
 From Coq Require Import ZArith List Bool.
-From AGH Require Import Model.Stats Proofs.Stats Proofs.StatsExt.
+From AGH Require Import Model.Stats Proofs.Stats Proofs.StatsExt Proofs.StatsTops.
 From AGH Require Base.Conc Proofs.StatsConc.
 Import ListNotations.
 Local Open Scope Z_scope.
@@ -254,6 +254,22 @@ Theorem C09_avg_time_example :
 Proof. exact avg_time_premises. Qed.
 Print Assumptions C09_avg_time_example.
 
+(** The top lists are consistent with the totals in every reachable state (no
+    assumption on the clock): the counts shown for queried and blocked
+    domains together, and those shown for clients, never exceed
+    num_dns_queries ([msum] = sum of the counts of a list). *)
+Theorem C09_tops_within_totals : forall id ms en h,
+  let d := get_data (run (init id ms en) h) in
+  msum (d_top_dom d) + msum (d_top_blk d) <= d_num d /\ msum (d_top_cli d) <= d_num d.
+Proof. exact tops_within_totals. Qed.
+Print Assumptions C09_tops_within_totals.
+
+Theorem C09_tops_within_totals_example :
+  let d := get_data (run (init 490000 (24 * ms_hour) true) ex_all5) in
+  msum (d_top_dom d) + msum (d_top_blk d) = 5 /\ d_num d = 5 /\ msum (d_top_cli d) = 5.
+Proof. exact tops_within_totals_premises. Qed.
+Print Assumptions C09_tops_within_totals_example.
+
 (** * The reset: clear() taken apart *)
 
 (** Run without anything in between, its three steps are the atomic clear. *)
@@ -373,3 +389,17 @@ Theorem C09_small_hour_id_wraps :
   rep CTotal (restart s' 26) = 5.
 Proof. exact small_hour_id_wraps. Qed.
 Print Assumptions C09_small_hour_id_wraps.
+
+(** The reset is atomic: clear() from both handlers follows the lock table of
+    the current source and is one confMu write section, like every other
+    operation that changes the state; with [C09_operations_serialised] nothing
+    can land between its steps, and [C09_reset_steps_atomic] says what the
+    steps amount to then. *)
+Theorem C09_reset_atomic :
+  conforms_tight stats_table [] p_clear = true /\
+  conforms_tight stats_table [] p_disable_and_clear = true /\
+  one_write_section p_clear = true /\ one_write_section p_disable_and_clear = true /\
+  one_write_section p_update = true /\ one_write_section (tl p_flush) = true /\
+  one_write_section p_put_config = true /\ one_write_section p_set_limit = true.
+Proof. exact reset_is_one_section. Qed.
+Print Assumptions C09_reset_atomic.
